@@ -38,7 +38,7 @@ theorem resume_obs_eq (σ : Sig F) (sem : Sem F V X O) (hc : Classified σ) (hl 
   have hpi : ∀ f, (σ.kind f).persisted = true → (run σ init ops).present f = true := fun f hp => by
     rw [run_present σ hl ops init f hp]; exact hcon f hp (hl f hp)
   have hpf : ∀ f, (σ.kind f).persisted = true → (run σ fresh (cfgOf ops)).present f = true := fun f hp => by
-    rw [run_present σ hl _ fresh f hp, ← hsame.present f]; exact hcon f hp (hl f hp)
+    rw [run_present σ hl _ fresh f hp, ← hsame.present f hp]; exact hcon f hp (hl f hp)
   refine ⟨hfz.training.symm, fun f hp => ?_, fun f _ hf => ?_⟩
   · exact load_persisted σ _ _ f hp (hpi f hp) (hpf f hp)
   · unfold resumeR
@@ -55,7 +55,7 @@ theorem keys_match (σ : Sig F) (hl : NoLate σ) (init fresh : MState F V) (hsam
     unfold isKey
     cases hp : (σ.kind f).persisted with
     | false => simp
-    | true => simp [run_present σ hl _ _ f hp, hsame.present f]
+    | true => simp [run_present σ hl _ _ f hp, hsame.present f hp]
   constructor
   · unfold missingKeys
     rw [List.filter_eq_nil_iff]
@@ -77,7 +77,21 @@ theorem key_sets_equal (σ : Sig F) (hl : NoLate σ) (init fresh : MState F V) (
   unfold isKey
   cases hp : (σ.kind f).persisted with
   | false => simp
-  | true => simp [run_present σ hl _ _ f hp, hsame.present f]
+  | true => simp [run_present σ hl _ _ f hp, hsame.present f hp]
+
+/-- **the key set does not depend on the call history** — observer calls (`summary()`, `str(model)`,
+`export()`, `cost`, `get_cost`) are operations of the history alphabet (`Op.observe`) on either side: the
+checkpointed wrapper may have been summarised / exported any number of times before `state_dict()`, the
+fresh wrapper may have been observed before `load_state_dict` (`pre`); the resume is identical and
+strict loading is clean all the same. -/
+theorem resume_obs_eq_observed (σ : Sig F) (sem : Sem F V X O) (hc : Classified σ) (hl : NoLate σ)
+    (init fresh : MState F V) (hsame : SameCtor σ init fresh) (hcon : Constructed σ init)
+    (ops pre : List (Op F V)) (hpre : ∀ op ∈ pre, op.isObserve = true) (x : X) (all : List F) :
+    obs σ sem x (resumeR σ (run σ fresh pre) ops (run σ init ops)) = obs σ sem x (run σ init ops) ∧
+    missingKeys σ all (save σ (run σ init ops)) (run σ (run σ fresh pre) (cfgOf ops)) = [] ∧
+    unexpectedKeys σ all (save σ (run σ init ops)) (run σ (run σ fresh pre) (cfgOf ops)) = [] :=
+  have hs := sameCtor_observed σ hl hsame pre hpre
+  ⟨resume_obs_eq σ sem hc hl init _ hs hcon ops x, keys_match σ hl init _ hs ops (cfgOf ops) all⟩
 
 /-- the checkpoint of the resumed wrapper is the checkpoint that was loaded (saving right after a
 resume loses nothing) -/
@@ -88,7 +102,7 @@ theorem save_resume_eq_save (σ : Sig F) (hl : NoLate σ) (init fresh : MState F
   have hpi : ∀ f, (σ.kind f).persisted = true → (run σ init ops).present f = true := fun f hp => by
     rw [run_present σ hl ops init f hp]; exact hcon f hp (hl f hp)
   have hpf : ∀ f, (σ.kind f).persisted = true → (run σ fresh (cfgOf ops)).present f = true := fun f hp => by
-    rw [run_present σ hl _ fresh f hp, ← hsame.present f]; exact hcon f hp (hl f hp)
+    rw [run_present σ hl _ fresh f hp, ← hsame.present f hp]; exact hcon f hp (hl f hp)
   cases hp : (σ.kind f).persisted with
   | false => simp [save, hp]
   | true =>
@@ -128,7 +142,7 @@ theorem resume_literal_obs_eq_partial (σ : Sig F) (sem : Sem F V X O) (hc : Cla
   refine ⟨rfl, fun f hp => ?_, fun f hr hf => ?_⟩
   · refine load_persisted σ _ _ f hp (hpi f hp) ?_
     show fresh.present f = true
-    rw [← hsame.present f]; exact hcon f hp (hl f hp)
+    rw [← hsame.present f hp]; exact hcon f hp (hl f hp)
   · unfold resumeL
     rw [load_other σ _ _ f (frozen_not_persisted hf)]
     show fresh.val f = (run σ init ops).val f
@@ -156,6 +170,7 @@ theorem resume_literal_obs_eq_partial (σ : Sig F) (sem : Sem F V X O) (hc : Cla
               · simp [hfg]
             · rfl
           | mode b => rfl
+          | observe => rfl
       exact (this ops init).symm
     | param => simp [hk, FClass.frozen] at hf
     | pbuf => simp [hk, FClass.frozen] at hf
@@ -197,6 +212,13 @@ theorem late_key_breaks_strict_load :
     unexpectedKeys lateSig [()] (save lateSig (run lateSig stLate [.train fun v => v])) stLate ≠ [] := by
   decide
 
+/-- … and so does a buffer registered by the first `summary()` / `export()`: unexpected when only the
+checkpointed wrapper was observed, missing when only the fresh one was -/
+theorem late_key_depends_on_observer_history :
+    unexpectedKeys lateSig [()] (save lateSig (run lateSig stLate [.observe])) stLate ≠ [] ∧
+    missingKeys lateSig [()] (save lateSig stLate) (run lateSig stLate [.observe]) ≠ [] := by
+  decide
+
 /-! ### the extracted table satisfies the hypotheses -/
 
 /-- every field of the extracted PLiNIO table that an observer path reads is a parameter, a persistent
@@ -229,10 +251,10 @@ theorem keys_match_plinio (init fresh : MState Nat V) (hsame : SameCtor (sigOf G
 
 example : Classified cfgSig := by intro f _; simp [cfgSig]
 example : NoLate cfgSig := by intro f _; rfl
-example : SameCtor cfgSig st0 st0 := ⟨fun _ _ => rfl, rfl, fun _ => rfl⟩
+example : SameCtor cfgSig st0 st0 := ⟨fun _ _ => rfl, rfl, fun _ _ => rfl⟩
 example : Constructed cfgSig st0 := fun _ _ _ => rfl
 /-- two wrappers of the generated signature built alike -/
 example : SameCtor (sigOf Gen.Fields.table) (⟨fun _ => 0, fun _ => true, true⟩ : MState Nat Nat)
-    ⟨fun _ => 0, fun _ => true, true⟩ := ⟨fun _ _ => rfl, rfl, fun _ => rfl⟩
+    ⟨fun _ => 0, fun _ => true, true⟩ := ⟨fun _ _ => rfl, rfl, fun _ _ => rfl⟩
 
 end PlinioVerif.C17
